@@ -618,6 +618,16 @@ func c11Diff(got, want []string) string {
 	return "event_bytes_differ"
 }
 
+func c11NonEmpty(a []string) []string {
+	out := make([]string, 0, len(a))
+	for _, x := range a {
+		if x != "" {
+			out = append(out, x)
+		}
+	}
+	return out
+}
+
 func c11EqS(a, b []string) bool {
 	if len(a) != len(b) {
 		return false
@@ -717,7 +727,11 @@ func (w *c11Worker) runSeq(pl *c11Plug, c *c11Case, v c11Variant, count bool) (m
 			continue
 		}
 		if !c11Equal(calls, want) {
-			mms = append(mms, mk("lines_differ", c11Diff(c11Datas(calls), want)))
+			kind := "lines_differ"
+			if c11EqS(c11NonEmpty(c11Datas(calls)), c11NonEmpty(want)) {
+				kind = "empty_lines_differ" // only the empty events differ (the pipeline's admission refuses empty events anyway)
+			}
+			mms = append(mms, mk(kind, c11Diff(c11Datas(calls), want)))
 			continue
 		}
 		if res.status == http.StatusOK && res.statusAt < res.end {
@@ -962,7 +976,7 @@ func c11RunConc(pl *c11Plug, c *c11Case, st *c11Stats, barrierOff *int32) (mms [
 		}
 	}
 	if empties != wantEmpties {
-		mms = append(mms, mk("lines_differ", fmt.Sprintf("concurrent: %d empty events handed over, %d empty lines in the bodies", empties, wantEmpties), nil, nil))
+		mms = append(mms, mk("empty_lines_differ", fmt.Sprintf("concurrent: %d empty events handed over, %d empty lines in the bodies", empties, wantEmpties), nil, nil))
 	}
 	// NoMixing: under one source id, the calls of two requests never interleave (A .. B .. A)
 	type key struct{ g, j int }
